@@ -51,6 +51,7 @@ def run(ctx):
     decoder_rule(ctx, "C05.8")
     stream_reset(ctx, "C05.9")
     unget_position(ctx)
+    delivery_rules(ctx)
     r.rule("C05.1", "CR LF replacement precedes lone CR replacement on the same variable", floor=1)
     r.rule("C05.2", "carry-over stores are paired (buffer<->truncate, re-inject<->clear)", floor=2)
     r.rule("C05.3", "every non-empty read evaluates the trailing-CR / lead-surrogate test before normalisation", floor=2)
@@ -349,6 +350,51 @@ def unget_position(ctx):
             "unget() prepends the character to the new chunk without taking it out of prevNumLines / prevNumCols, which already "
             "count it: positions after a push-back across a chunk boundary are shifted (`<!doctyp><p>x` reports its errors at "
             "column 2 with the default chunk size and at column 8 with a chunk size of 2)", detail={"compensated": not bad})
+
+
+def delivery_rules(ctx):
+    """C05.11: a read that returns fewer characters than asked for is not the end of the input (text streams, pipes and
+    multi-byte decoders return short reads at will): nothing in the stream classes may compare the length of what a read
+    returned with the size requested.  Only an empty read ends the input.
+    C05.12: whether a file-like source delivers text or bytes is decided by what read() returns, not by the class of the
+    source (codecs.StreamReader objects and duck-typed readers are text sources without being io.TextIOBase)."""
+    from ..repo import ModuleInfo
+    r = ctx.r
+    r.rule("C05.11", "no decision in the stream classes depends on a read being shorter than requested", floor=15)
+    mod = ctx.repo.module(REL)
+
+    def short_read_tests(fn):
+        out = []
+        sizes = {norm(c.args[0]) for c in walk_no_nested(fn) if isinstance(c, ast.Call) and isinstance(c.func, ast.Attribute)
+                 and c.func.attr == "read" and c.args and isinstance(c.args[0], ast.Name)}
+        for c in walk_no_nested(fn):
+            if isinstance(c, ast.Compare) and len(c.ops) == 1 and isinstance(c.ops[0], (ast.Lt, ast.LtE, ast.NotEq, ast.Gt, ast.GtE, ast.Eq)):
+                sides = [norm(c.left), norm(c.comparators[0])]
+                if any(s.startswith("len(") for s in sides) and any(s in sizes for s in sides):
+                    out.append(c)
+        return out
+    for f in mod.all_functions:
+        tests = short_read_tests(f.node)
+        if not tests:
+            r.ok("C05.11", "no-short-read-test::%s" % f.qual, f.where)
+        for c in tests:
+            r.bad("C05.11", "no-short-read-test::%s::%s" % (f.qual, norm(c)[:40]), "%s:%d" % (REL, c.lineno),
+                  "%s compares the length of what a read returned with the size it asked for (`%s`): a text stream that returns short "
+                  "reads, or a multi-byte decoder that returns fewer characters than bytes requested, is taken to be exhausted and the "
+                  "rest of the document is dropped" % (f.qual, norm(c)), {"function": f.qual})
+    pos = ModuleInfo("positive_c0511.py", "<positive example>", source="def f(self, chunkSize):\n    data = self.dataStream.read(chunkSize)\n    self.done = len(data) < chunkSize\n    return data\n")
+    r.positive("C05.11", len(short_read_tests(pos.all_functions[0].node)) == 1)
+    r.rule("C05.12", "text vs bytes is decided by the type read() returns", floor=1)
+    fac = ctx.repo.func(REL, "HTMLInputStream")
+    decs = [s for s in ast.walk(fac.node) if isinstance(s, ast.Assign) and norm(s.targets[0]) == "isUnicode" and isinstance(s.value, ast.Call)
+            and norm(s.value.func) == "isinstance"]
+    by_read = [s for s in decs if ".read(" in norm(s.value.args[0])]
+    by_class = [s for s in decs if norm(s.value.args[0]) == fac.params()[0] and "IO" in norm(s.value.args[1])]
+    r.idiom("C05.12", bool(by_read), "text-or-bytes-by-read-result", fac.where, "the text/bytes decision for file-like sources was not recognised",
+            wrong=[(bool(by_class) and not by_read,
+                    "HTMLInputStream decides text vs bytes from the class of the source (`%s`): text readers that are not io.TextIOBase "
+                    "(codecs.StreamReader, duck-typed objects) are sent to the byte stream and fail in BOM sniffing"
+                    % (norm(by_class[0].value) if by_class else ""))], detail={"decisions": [norm(s.value) for s in decs]})
 
 
 def thorough(ctx):
